@@ -257,4 +257,401 @@ theorem pendingAt_canon (l : List Nat) (p p' n : Nat) (hb : p = BSL ↔ p' = BSL
     · simp [pendingAt, pendCanon, ha, hl]
       rw [← this]; simp [pendingAt, ha]
 
+/-! ### prefixes: final newline, BOM -/
+
+theorem canon_cons_ne (a : Nat) (t : List Nat) (ha : a ≠ CR) :
+    canonicalizeNewline (a :: t) = a :: canonicalizeNewline t := by
+  cases t with
+  | nil => simp [canonicalizeNewline, ha]
+  | cons b r => simp [canonicalizeNewline, ha]
+
+theorem splice_cons_ne (a : Nat) (t : List Nat) (n : Nat) (h1 : a ≠ LF) (h2 : a ≠ BSL) :
+    (removeBackslashNewlineAux (a :: t) n).head? = some a := by
+  cases t with
+  | nil => simp [removeBackslashNewlineAux]
+  | cons b r => simp [removeBackslashNewlineAux, h1, h2]
+
+theorem ensureFinalNewline_eq (p : List Nat) :
+    ensureFinalNewline p = p ∨ ensureFinalNewline p = p ++ [LF] := by
+  unfold ensureFinalNewline
+  split
+  · split <;> simp
+  · rename_i h; simp at h; subst h; right; rfl
+
+theorem ensureFinalNewline_take (p : List Nat) (off : Nat) (h : off ≤ p.length) :
+    (ensureFinalNewline p).take off = p.take off := by
+  rcases ensureFinalNewline_eq p with e | e <;> rw [e]
+  rw [List.take_append_of_le_length h]
+
+theorem ensureFinalNewline_get (p : List Nat) (off : Nat) (h : off < p.length) :
+    (ensureFinalNewline p)[off]? = p[off]? := by
+  rcases ensureFinalNewline_eq p with e | e <;> rw [e]
+  rw [List.getElem?_append_left h]
+
+theorem countTerm_prev (p q : Nat) (l : List Nat) (hp : p ≠ CR) (hq : q ≠ CR) :
+    countTerm p l = countTerm q l := by
+  cases l with
+  | nil => rfl
+  | cons a r => simp at hp hq; simp [countTerm, endsTerm, hp, hq]
+
+theorem pendingAt_prev (p q n : Nat) (l : List Nat) (hp : p ≠ CR ∧ p ≠ BSL) (hq : q ≠ CR ∧ q ≠ BSL) :
+    pendingAt p n l = pendingAt q n l := by
+  cases l with
+  | nil => rfl
+  | cons a r => simp at hp hq; simp [pendingAt, hp, hq]
+
+theorem hasBOM_eq (b : List Nat) (h : hasBOM b = true) : b = 0xEF :: 0xBB :: 0xBF :: b.drop 3 := by
+  match b, h with
+  | x :: y :: z :: r, h => simp [hasBOM] at h; simp [h]
+
+/-- the bytes before `off`, seen after the BOM skip, have the same terminator count and splice counter -/
+theorem skipBOM_prefix (b : List Nat) (off : Nat) (h : bomLen b ≤ off) :
+    countTerm 0 ((skipBOM b).take (off - bomLen b)) = countTerm 0 (b.take off) ∧
+    ∀ n, pendingAt 0 n ((skipBOM b).take (off - bomLen b)) = pendingAt 0 n (b.take off) := by
+  unfold skipBOM bomLen at *
+  by_cases hb : hasBOM b = true
+  · simp [hb] at h ⊢
+    have e := hasBOM_eq b hb
+    generalize b.drop 3 = r at e
+    subst e
+    obtain ⟨k, rfl⟩ : ∃ k, off = k + 3 := ⟨off - 3, by omega⟩
+    simp [countTerm, endsTerm, pendingAt]
+    exact ⟨countTerm_prev _ _ _ (by simp) (by simp), fun n => pendingAt_prev _ _ _ _ (by simp) (by simp)⟩
+  · simp [hb]
+
+theorem countLF_skipBOM (b : List Nat) : countLF (skipBOM b) = countLF b := by
+  unfold skipBOM bomLen
+  by_cases hb : hasBOM b = true
+  · simp [hb]
+    have e := hasBOM_eq b hb
+    generalize b.drop 3 = r at e
+    subst e
+    simp
+  · simp [hb]
+
+theorem countTerm_skipBOM (b : List Nat) : countTerm 0 (skipBOM b) = countTerm 0 b := by
+  unfold skipBOM bomLen
+  by_cases hb : hasBOM b = true
+  · simp [hb]
+    have e := hasBOM_eq b hb
+    generalize b.drop 3 = r at e
+    subst e
+    simp [countTerm, endsTerm]
+    exact countTerm_prev _ _ _ (by simp) (by simp)
+  · simp [hb]
+
+/-! ### the main formula -/
+
+/-- decomposition of the text `tokenize` sees at the image of file offset `off` -/
+theorem sourceText_split (bytes : List Nat) (off c : Nat) (hlt : off < bytes.length)
+    (hbom : bomLen (ensureFinalNewline bytes) ≤ off)
+    (hc : bytes[off]? = some c) (hLF : c ≠ LF) (hCR : c ≠ CR) :
+    ∃ pre rest tail,
+      skipBOM (ensureFinalNewline bytes) = pre ++ rest ∧
+      pre = (skipBOM (ensureFinalNewline bytes)).take (off - bomLen (ensureFinalNewline bytes)) ∧
+      rest = c :: tail ∧
+      sourceText bytes = spliceEmit (canonicalizeNewline pre) 0
+        ++ removeBackslashNewlineAux (c :: canonicalizeNewline tail) (scanN (canonicalizeNewline pre) 0) := by
+  let b := ensureFinalNewline bytes
+  let B := skipBOM b
+  let o := off - bomLen b
+  have hbom' : bomLen b ≤ off := hbom
+  have hget : B[o]? = some c := by
+    show (List.drop (bomLen b) b)[off - bomLen b]? = some c
+    rw [List.getElem?_drop]
+    have : bomLen b + (off - bomLen b) = off := by omega
+    rw [this, ensureFinalNewline_get _ _ hlt, hc]
+  have hdrop : B.drop o = c :: B.drop (o + 1) := by
+    have hlt' : o < B.length := by
+      rcases Nat.lt_or_ge o B.length with h | h
+      · exact h
+      · rw [List.getElem?_eq_none h] at hget; simp at hget
+    rw [List.drop_eq_getElem_cons hlt']
+    congr 1
+    have := List.getElem?_eq_getElem hlt'
+    rw [this] at hget; exact Option.some.inj hget
+  refine ⟨B.take o, B.drop o, B.drop (o + 1), (List.take_append_drop o B).symm, rfl, hdrop, ?_⟩
+  show removeBackslashNewline (canonicalizeNewline B) = _
+  conv => lhs; rw [← List.take_append_drop o B]
+  rw [canon_append _ _ (by rw [hdrop]; simpa using hLF), hdrop, canon_cons_ne _ _ hCR]
+  unfold removeBackslashNewline
+  rw [splice_append _ _ _ (by right; simpa using hLF)]
+
+theorem tokenStart_iff (bytes : List Nat) (off : Nat) :
+    tokenStart bytes off = true ↔
+      bomLen (ensureFinalNewline bytes) ≤ off ∧ ∃ c, bytes[off]? = some c ∧ c ≠ LF ∧ c ≠ CR := by
+  unfold tokenStart
+  cases h : bytes[off]? with
+  | none => simp
+  | some c => simp
+
+/-- **the formula**: the line number chibicc computes for the token at file offset `off`, plus the number of
+    backslash-newlines before it on its logical line, is its physical line -/
+theorem lineNoAt_formula (bytes : List Nat) (off : Nat) (h : tokenStart bytes off = true) :
+    lineNoAt bytes off + pendingSplices bytes off = physLine bytes off := by
+  obtain ⟨hbom, c, hc, hLF, hCR⟩ := (tokenStart_iff _ _).1 h
+  have hlt : off < bytes.length := by
+    rcases Nat.lt_or_ge off bytes.length with h | h
+    · exact h
+    · rw [List.getElem?_eq_none h] at hc; simp at hc
+  obtain ⟨pre, rest, tail, hB, hpre, hrest, hst⟩ := sourceText_split bytes off c hlt hbom hc hLF hCR
+  have hpos : posMap bytes off = (spliceEmit (canonicalizeNewline pre) 0).length := by
+    unfold posMap; rw [hpre]
+  unfold lineNoAt lineNoOf
+  rw [hpos, hst, List.take_left']
+  · have h1 := countLF_spliceEmit (canonicalizeNewline pre) 0
+    have h2 := countLF_canon 0 pre (by simp)
+    have h3 := scanN_eq_pendCanon (canonicalizeNewline pre) 0 0 (by left; simp)
+    have h4 := pendingAt_canon pre 0 0 0 (by simp) (by simp)
+    have h5 := skipBOM_prefix (ensureFinalNewline bytes) off hbom
+    rw [← hpre] at h5
+    rw [ensureFinalNewline_take _ _ (Nat.le_of_lt hlt)] at h5
+    unfold pendingSplices physLine
+    rw [← h5.1, ← h5.2 0, h4, ← h3, ← h2]
+    omega
+  · rfl
+
+/-- the byte found at the mapped offset is the byte of the file (so `posMap` really is the image of the offset) -/
+theorem posMap_faithful (bytes : List Nat) (off c : Nat) (h : tokenStart bytes off = true)
+    (hc : bytes[off]? = some c) (hB : c ≠ BSL) :
+    (sourceText bytes)[posMap bytes off]? = some c := by
+  obtain ⟨hbom, c', hc', hLF, hCR⟩ := (tokenStart_iff _ _).1 h
+  rw [hc] at hc'; cases hc'
+  have hlt : off < bytes.length := by
+    rcases Nat.lt_or_ge off bytes.length with h | h
+    · exact h
+    · rw [List.getElem?_eq_none h] at hc; simp at hc
+  obtain ⟨pre, rest, tail, hB', hpre, hrest, hst⟩ := sourceText_split bytes off c hlt hbom hc hLF hCR
+  have hpos : posMap bytes off = (spliceEmit (canonicalizeNewline pre) 0).length := by
+    unfold posMap; rw [hpre]
+  rw [hpos, hst, List.getElem?_append_right (Nat.le_refl _), Nat.sub_self, ← List.head?_eq_getElem?]
+  exact splice_cons_ne _ _ _ hLF hB
+
+/-! ### add_line_numbers, error_at, verror_at -/
+
+theorem take_succ_cons (c : Nat) (rest : List Nat) (k : Nat) : (c :: rest).take (k + 1) = c :: rest.take k := rfl
+
+theorem addLineNumbersAux_ok (text : List Nat) : ∀ (p n : Nat) (locs : List Nat),
+    locs ≠ [] → locs.Pairwise (· < ·) → (∀ l ∈ locs, p ≤ l) → locs.getLast? = some (p + text.length) →
+    addLineNumbersAux text p n locs = .ok (locs.map (fun l => n + countLF (text.take (l - p)))) := by
+  induction text with
+  | nil =>
+    intro p n locs hne hpw hge hlast
+    match locs, hne with
+    | l :: ls, _ =>
+      cases ls with
+      | nil =>
+        have : l = p := by simpa using hlast
+        subst this; simp [addLineNumbersAux]
+      | cons l2 ls2 =>
+        exfalso
+        have h1 : p ≤ l := hge l (by simp)
+        have hmem : p ∈ l2 :: ls2 := by
+          have : (l :: l2 :: ls2).getLast? = (l2 :: ls2).getLast? := by simp [List.getLast?_cons_cons]
+          rw [this] at hlast
+          simpa using List.mem_of_getLast? hlast
+        have := (List.pairwise_cons.1 hpw).1 p hmem
+        omega
+  | cons c rest ih =>
+    intro p n locs hne hpw hge hlast
+    match locs, hne with
+    | l :: ls, _ =>
+      by_cases hpl : p = l
+      · subst hpl
+        have hls : ls ≠ [] := by
+          intro h; subst h; simp at hlast <;> omega
+        have hpw' := (List.pairwise_cons.1 hpw)
+        have hge' : ∀ l' ∈ ls, p + 1 ≤ l' := fun l' hl' => hpw'.1 l' hl'
+        have hlast' : ls.getLast? = some (p + 1 + rest.length) := by
+          match ls, hls with
+          | l2 :: ls2, _ =>
+            rw [List.getLast?_cons_cons] at hlast; rw [hlast]; simp; omega
+        have := ih (p + 1) (if c = LF then n + 1 else n) ls hls hpw'.2 hge' hlast'
+        have hmap : ls.map (fun l => (if c = LF then n + 1 else n) + countLF (rest.take (l - (p + 1))))
+            = ls.map (fun l => n + countLF ((c :: rest).take (l - p))) := by
+          apply List.map_congr_left
+          intro l' hl'
+          have h1 := hge' l' hl'
+          obtain ⟨k, rfl⟩ : ∃ k, l' = p + 1 + k := ⟨l' - (p + 1), by omega⟩
+          have e1 : p + 1 + k - p = k + 1 := by omega
+          have e2 : p + 1 + k - (p + 1) = k := by omega
+          rw [e1, e2, take_succ_cons, countLF_cons]
+          split <;> omega
+        simp [addLineNumbersAux, this, Except.map, hmap]
+      · have hlt : p < l := by
+          have := hge l (by simp); omega
+        have hge' : ∀ l' ∈ l :: ls, p + 1 ≤ l' := by
+          intro l' hl'
+          rcases List.mem_cons.1 hl' with rfl | h
+          · omega
+          · have := (List.pairwise_cons.1 hpw).1 l' h; omega
+        have hlast' : (l :: ls).getLast? = some (p + 1 + rest.length) := by
+          rw [hlast]; simp; omega
+        have := ih (p + 1) (if c = LF then n + 1 else n) (l :: ls) (by simp) hpw hge' hlast'
+        have hmap : (l :: ls).map (fun l => (if c = LF then n + 1 else n) + countLF (rest.take (l - (p + 1))))
+            = (l :: ls).map (fun l => n + countLF ((c :: rest).take (l - p))) := by
+          apply List.map_congr_left
+          intro l' hl'
+          have h1 := hge' l' hl'
+          obtain ⟨k, rfl⟩ : ∃ k, l' = p + 1 + k := ⟨l' - (p + 1), by omega⟩
+          have e1 : p + 1 + k - p = k + 1 := by omega
+          have e2 : p + 1 + k - (p + 1) = k := by omega
+          rw [e1, e2, take_succ_cons, countLF_cons]
+          split <;> omega
+        rw [← hmap, ← this]
+        simp [addLineNumbersAux, hpl]
+
+/-- `add_line_numbers` gives every token `1 + number of '\n' before its loc`, provided the token list is in text order
+    and ends with the EOF token at the terminator (which is how `tokenize` builds it) -/
+theorem addLineNumbers_ok (text : List Nat) (locs : List Nat) (hne : locs ≠ [])
+    (hpw : locs.Pairwise (· < ·)) (hlast : locs.getLast? = some text.length) :
+    addLineNumbers text locs = .ok (locs.map (lineNoOf text)) := by
+  have := addLineNumbersAux_ok text 0 1 locs hne hpw (by simp) (by simpa using hlast)
+  have e : (lineNoOf text) = fun l => 1 + countLF (text.take (l - 0)) := rfl
+  rw [e]; exact this
+
+theorem foldl_count (l : List Nat) (n : Nat) :
+    l.foldl (fun n c => if c = LF then n + 1 else n) n = n + countLF l := by
+  induction l generalizing n with
+  | nil => simp
+  | cons a r ih => simp only [List.foldl_cons, ih, countLF_cons]; split <;> omega
+
+/-- `error_at`'s recount is `add_line_numbers`' value -/
+theorem errorAtLine_eq (text : List Nat) (loc : Nat) : errorAtLine text loc = lineNoOf text loc := by
+  unfold errorAtLine lineNoOf; rw [foldl_count]
+
+theorem countLF_take_succ (text : List Nat) (k : Nat) :
+    countLF (text.take (k + 1)) = countLF (text.take k) + (if text[k]? = some LF then 1 else 0) := by
+  induction text generalizing k with
+  | nil => simp
+  | cons a r ih =>
+    cases k with
+    | zero => simp
+    | succ k => simp [ih k]; omega
+
+theorem shownStart_le (text : List Nat) (loc : Nat) : shownStart text loc ≤ loc := by
+  induction loc with
+  | zero => simp [shownStart]
+  | succ k ih => unfold shownStart; split <;> omega
+
+/-- the line `verror_at` shows starts on the same line as `loc` … -/
+theorem shownStart_line (text : List Nat) (loc : Nat) :
+    lineNoOf text (shownStart text loc) = lineNoOf text loc := by
+  induction loc with
+  | zero => simp [shownStart]
+  | succ k ih =>
+    unfold shownStart
+    by_cases h : text[k]? = some LF
+    · simp [h]
+    · simp only [if_neg h, ih]
+      unfold lineNoOf
+      rw [countLF_take_succ]; simp [h]
+
+/-- … and begins right after a '\n' (or at the start of the buffer) -/
+theorem shownStart_bol (text : List Nat) (loc : Nat) :
+    shownStart text loc = 0 ∨ text[shownStart text loc - 1]? = some LF := by
+  induction loc with
+  | zero => left; rfl
+  | succ k ih =>
+    unfold shownStart
+    by_cases h : text[k]? = some LF
+    · right; simpa [h] using h
+    · simpa [h] using ih
+
+/-! ### logical lines -/
+
+theorem pendCanon_snoc (ys : List Nat) (prev n a : Nat) :
+    pendCanon prev n (ys ++ [a]) =
+      (if a = LF then (if ys.getLast?.getD prev = BSL then pendCanon prev n ys + 1 else 0) else pendCanon prev n ys) := by
+  induction ys generalizing prev n with
+  | nil => rfl
+  | cons y r ih =>
+    simp only [List.cons_append, pendCanon, ih]
+    cases r with
+    | nil => simp
+    | cons z r' =>
+      obtain ⟨w, hw⟩ : ∃ w, (z :: r').getLast? = some w := ⟨_, List.getLast?_eq_some_getLast (by simp)⟩
+      simp [List.getLast?_cons_cons, hw]
+
+/-- a position starts a logical line if it is the start of the text or follows a '\n' that is not preceded by a backslash -/
+def startsLogicalLine (pre : List Nat) : Bool :=
+  match pre.reverse with
+  | [] => true
+  | [a] => a == LF
+  | a :: b :: _ => a == LF && b != BSL
+
+theorem scanN_logical_start (pre : List Nat) (h : startsLogicalLine pre = true) :
+    scanN pre 0 = 0 ∧ ∀ rest, cutOK pre rest := by
+  rw [scanN_eq_pendCanon pre 0 0 (by left; simp)]
+  unfold startsLogicalLine at h
+  generalize hr : pre.reverse = r at h
+  have hp : pre = r.reverse := by rw [← hr, List.reverse_reverse]
+  match r, h with
+  | [], _ => subst hp; simp [pendCanon, cutOK]
+  | [a], h =>
+    simp at h; subst h; subst hp
+    simp [pendCanon, cutOK]
+  | a :: b :: t, h =>
+    simp at h; obtain ⟨rfl, hb⟩ := h; subst hp
+    constructor
+    · have : (10 :: b :: t).reverse = (t.reverse ++ [b]) ++ [10] := by simp
+      rw [this, pendCanon_snoc]
+      simp [hb]
+    · intro rest; left; simp
+
+/-! ### one file's events -/
+
+def Ev.isDir : Ev → Bool
+  | .lineDir .. => true
+  | _ => false
+
+/-- the `File` object after `preprocess2` has met the events -/
+def stateAfter (text : List Nat) : File → List Ev → File
+  | f, [] => f
+  | f, .lineDir off n name :: r => stateAfter text (readLineMarker f (lineNoOf text off) n name) r
+  | f, .tok _ :: r => stateAfter text f r
+  | f, .lineMac _ :: r => stateAfter text f r
+  | f, .fileMac _ :: r => stateAfter text f r
+
+theorem runFile_append (text : List Nat) (f : File) (e₁ e₂ : List Ev) :
+    runFile text f (e₁ ++ e₂) = runFile text f e₁ ++ runFile text (stateAfter text f e₁) e₂ := by
+  induction e₁ generalizing f with
+  | nil => simp [runFile, stateAfter]
+  | cons e r ih => cases e <;> simp [runFile, stateAfter, ih]
+
+theorem stateAfter_append (text : List Nat) (f : File) (e₁ e₂ : List Ev) :
+    stateAfter text f (e₁ ++ e₂) = stateAfter text (stateAfter text f e₁) e₂ := by
+  induction e₁ generalizing f with
+  | nil => simp [stateAfter]
+  | cons e r ih => cases e <;> simp [stateAfter, ih]
+
+theorem stateAfter_noDir (text : List Nat) (f : File) (evs : List Ev) (h : ∀ e ∈ evs, e.isDir = false) :
+    stateAfter text f evs = f := by
+  induction evs generalizing f with
+  | nil => rfl
+  | cons e r ih =>
+    have hr : ∀ e ∈ r, e.isDir = false := fun e he => h e (by simp [he])
+    cases e with
+    | lineDir off n name => have := h (.lineDir off n name) (by simp); simp [Ev.isDir] at this
+    | tok off => simp [stateAfter, ih _ hr]
+    | lineMac off => simp [stateAfter, ih _ hr]
+    | fileMac off => simp [stateAfter, ih _ hr]
+
+/-! ### the `.file` table -/
+
+/-- enter the files in the order `tokenize_file` is called -/
+def enterAll (fs : Files) (paths : List String) : Files := paths.foldl (fun fs p => (enterFile fs p).1) fs
+
+theorem enterAll_spec (paths : List String) : ∀ fs : Files,
+    (enterAll fs paths).map (·.fileNo) = fs.map (·.fileNo) ++ List.range' (fs.length + 1) paths.length ∧
+    (enterAll fs paths).map (·.name) = fs.map (·.name) ++ paths := by
+  induction paths with
+  | nil => intro fs; simp [enterAll]
+  | cons p ps ih =>
+    intro fs
+    have := ih (fs ++ [newFile p (fs.length + 1)])
+    simp only [enterAll, List.foldl_cons, enterFile] at this ⊢
+    rw [this.1, this.2]
+    simp [newFile, List.range'_succ]
+
 end ChibiVerif.LineNo
